@@ -43,7 +43,7 @@ FAMILIES = {
         "driver": "core", "monitor": "MonTrace",
         "exhaustive": {
             "quick": [mc("MCGenQ", "1 vBucket, seqnos <=2, all kinds x key classes x old, bad events, rollback, 1 crash"),
-                      mc("MCReopenQ", "1 vBucket, seqnos <=3, a fail-over while streaming: transient end, re-open answered ROLLBACK(r), history "
+                      mc("MCReopenQ", "1 vBucket, seqnos <=3, <=2 transient ends (fail-over), re-open answered ok / ROLLBACK(r), history "
                                       "above r discarded and re-generated with new snapshots, 1 ack")],
             "thorough": [mc("MCGen", "1 vBucket, seqnos <=3, all kinds x key classes x old, bad events, rollback, 1 crash", 5000),
                          mc("MCReopen", "1 vBucket, seqnos <=3, 2 transient ends (fail-over, socket), re-open answered ok / ROLLBACK(r) with "
